@@ -50,7 +50,10 @@ PrefixOK(inst, pre) ==
   /\ LET P == Pieces(pre) IN \A k \in DOMAIN P : PieceOK(inst, k, P[k])
 
 Complete(inst, pre) == \A j \in Cust(inst) : Count(pre, j) = 1
-Feasible(inst, sol) == PrefixOK(inst, sol) /\ Complete(inst, sol)
+\* depot visits after the last customer (the closing return, padding) employ nobody: they are not counted
+RECURSIVE Trim(_)
+Trim(seq) == IF seq # <<>> /\ Last(seq) = 0 THEN Trim(Front(seq)) ELSE seq
+Feasible(inst, sol) == PrefixOK(inst, Trim(sol)) /\ Complete(inst, sol)
 
 \* reward units: minus the sum over technicians of cost factor * length of the closed tour
 Objective(inst, sol) ==
